@@ -1307,6 +1307,10 @@ lyxml_dump_text(struct ly_out *out, const char *text, ly_bool attribute)
             /* not needed, just for readability */
             ret = ly_print_(out, "&gt;");
             break;
+        case '\r':
+            /* a literal CR would be normalized to LF by every XML parser */
+            ret = ly_print_(out, "&#xD;");
+            break;
         case '"':
             if (attribute) {
                 ret = ly_print_(out, "&quot;");
